@@ -491,9 +491,11 @@ func (x *Exec) bindResults(f *ssa.Function, env *Env, rets []Val) {
 
 func (x *Exec) applyContract(st *State, fr *Frame, callee *ssa.Function, con *Contract, args []Val, pos token.Pos) Val {
 	cname := funcName(callee)
-	if _, ok := x.P.fnKey[callee]; !ok {
+	if k, ok := x.P.fnKey[callee]; !ok {
 		cname = callee.String()
 		x.usedExt[cname] = true
+	} else {
+		x.usedContracts[k] = true
 	}
 	env := &Env{st: st, vars: map[string]Val{}, pkg: con.Pkg}
 	for i, p := range callee.Params {
